@@ -339,6 +339,8 @@ func ruleC11(w *World, r *Report) {
 	// application) use the same reference key — the sibling-agreement rules of C04 R04.3
 	r.withRule("R11.6", func() { ruleC04Shared(w, r) })
 	r.withRule("R11.7", func() { ruleC15TunnelRelease(w, r, "C11") })
+	r.withRule("R11.13", func() { ruleC06SeidEntropy(w, r) })
+	r.withRule("R11.14", func() { ruleC10Forget(w, r) })
 	ruleC11ConnectOnce(w, r)
 	ruleC11SplitSections(w, r)
 	ruleC11Shared2(w, r)
